@@ -57,7 +57,10 @@ fn identity_rule(text: &str, class: &str, ws: &[CW], a: &mut Acc) {
                 if g == *w { a.same += 1; a.outs.insert(hash64(&g)); } else {
                     // cell-exact signature for the one-bit stress alpha: the only difference is secondary -> primary
                     let only_s_to_p = g.len() == w.len() && g.iter().zip(w.iter()).all(|(x, y)| x.segs == y.segs && x.tone == y.tone && (x.stress == y.stress || (y.stress == 2 && x.stress == 1)));
-                    let key = if class == "alpha-stress-alone" && only_s_to_p { format!("{}|{}|secondary->primary", class, text) } else { format!("{}|{}|{}", class, text, show_cw(w)) };
+                    // cell-exact signature for a structure restated through variables: the only difference is that long segments came back short
+                    let collapse = |sy: &CSyl| -> Vec<SegBits> { let mut v = sy.segs.clone(); v.dedup(); v };
+                    let only_len_lost = g.len() == w.len() && g.iter().zip(w.iter()).all(|(x, y)| x.tone == y.tone && x.stress == y.stress && (x.segs == y.segs || (x.segs == collapse(y) && x.segs.len() < y.segs.len())));
+                    let key = if class == "alpha-stress-alone" && only_s_to_p { format!("{}|{}|secondary->primary", class, text) } else if class == "struct-identity" && only_len_lost { format!("{}|{}|long-segment-shortened", class, text) } else { format!("{}|{}|{}", class, text, show_cw(w)) };
                     a.viols.push(Viol { key, desc: format!("identity rule `{}` changed /{}/ into /{}/", text, show_cw(w), show_cw(&g)), case: json!({"kind": "identity", "rule": text, "word": cw_json(w), "class": class}) });
                 }
             }
@@ -243,6 +246,18 @@ pub fn run() -> i32 {
     r.boxes.push(json!({"box": "(f) variable used again inside the input (identity rules)", "rules": reuse.len(), "words": wc.len(), "applications": tf.evals, "unchanged": tf.same, "runtime_errors": tf.errs, "rejected_rules": tf.rejected, "error_kinds": tf.err_kinds}));
     r.guard(tf.same > 100_000, "(f) more than 100k Ok applications");
     tot.merge(tf);
+    // (g) a structure whose elements are bound to variables, restated by an output structure (`⟨C=1 V=2⟩ > ⟨1 2⟩`): the syllable is written back as
+    // it was - its segments (long ones included), its stress and its tone, none of which the output structure mentions
+    let mut srules: Vec<(String, String)> = vec![];
+    for (i, o) in [("⟨C=1 V=2⟩", "⟨1 2⟩"), ("⟨V=1⟩", "⟨1⟩"), ("⟨V=1 C=2⟩", "⟨1 2⟩"), ("⟨C=1 V=2 C=3⟩", "⟨1 2 3⟩"), ("⟨[]=1 []=2⟩", "⟨1 2⟩"), ("⟨C=1 ...⟩", "⟨1 ...⟩"), ("⟨C=1 V=2⟩=3", "3"), ("⟨[]=1 []=2 []=3⟩", "⟨1 2 3⟩")] {
+        srules.push((format!("{} > {}", i, o), "struct-identity".to_string()));
+        for e in [" / _ #", " / # _", " / _ $", " | _ #"] { srules.push((format!("{} > {}{}", i, o, e), "struct-identity".to_string())); }
+    }
+    let mut tg = Acc::default();
+    par_fold(srules.len(), 1, Acc::default, |i, a| identity_rule(&srules[i].0, &srules[i].1, &ws, a), |a| tg.merge(a));
+    r.boxes.push(json!({"box": "(g) structures with bound elements restated by an output structure (identity rules)", "rules": srules.len(), "words": ws.len(), "applications": tg.evals, "unchanged": tg.same, "runtime_errors": tg.errs, "rejected_rules": tg.rejected, "error_kinds": tg.err_kinds}));
+    r.guard(tg.same > 10_000, "(g) more than 10k Ok applications");
+    tot.merge(tg);
     // (d)
     let mut td = Acc::default();
     par_fold(4, 1, Acc::default, |i, a| var_in_structure(i, &wc, a), |a| td.merge(a));
